@@ -211,6 +211,11 @@ def plan_C14(tier, seed):
         # sanitizer half: AddressSanitizer (debug assertions off) and Miri (assertions off and on)
         Job("reader-asan", "asan", "c14r", q(tier, 8_000, 400_000), {"max_ops": 300, "max_stream": 1 << 16}, crash_is_violation=True),
         Job("writer-asan", "asan", "c14w", q(tier, 800, 20_000), {"max_ops": 150}, crash_is_violation=True),
+        # the raw 8-byte loads of the text scanners and of the BTOR2 keyword scanner and the unchecked slicing of the
+        # tokenizers are reached through the parsers: hostile parser corpus under AddressSanitizer (only a
+        # sanitizer report / crash counts here; panics and values are C05's and C06's business)
+        Job("parsers-asan", "asan", "c05", q(tier, 400_000, 8_000_000), {"quiet": 1, "max_size": 600}, cpu_limit=60,
+            crash_is_violation=True),
         Job("reader-miri", "miri-san", "c14r", q(tier, 32, 640), {"max_ops": 90, "max_stream": 2000}, nshards=16,
             crash_is_violation=True, wall_limit=3000),
         Job("writer-miri", "miri-san", "c14w", q(tier, 16, 160), {"max_ops": q(tier, 8, 12)}, nshards=16,
@@ -234,7 +239,9 @@ def plan_C14(tier, seed):
                 "position-identifying and zero-free, so zero fill or stale bytes cannot pass). Sanitizer oracle: the same "
                 "histories, content reads included, under AddressSanitizer (debug assertions off, so a broken invariant "
                 "reaches get_unchecked/set_len) and under Miri; any sanitizer report, abort or signal is attributed to the "
-                "journalled history and is a violation. A history is non-trivial if >= 1 panic was caught and >= 2 refills "
+                "journalled history and is a violation. The unsafe code reached only through parsers (8-byte loads in text.rs and "
+                "btor2/token.rs, from_utf8_unchecked, unchecked slicing) is driven by the hostile parser corpus of C05 under "
+                "AddressSanitizer as well. A history is non-trivial if >= 1 panic was caught and >= 2 refills "
                 "happened (reader) or the sink saw >= 2 calls over more than one capacity (writer).",
         "jobs": jobs,
         "primary_jobs": ["reader-chk", "writer-chk"],
